@@ -85,7 +85,8 @@ class Quads(SubCheck):
 
     def __init__(self, svg, tier):
         self.svg = svg
-        self.p = Product(QE, QC, QC, PERT, MAGS)
+        qc = QC + ([-10.0, -0.5, 0.5, 4.0, 13.0] if tier == "thorough" else [])
+        self.p = Product(QE, qc, qc, PERT, MAGS)
 
     def size(self):
         return len(self.p)
@@ -118,7 +119,8 @@ class Cubics(SubCheck):
     def __init__(self, svg, tier):
         self.svg = svg
         mags = MAGS if tier == "thorough" else [1.0]
-        self.p = Product(CE, CC, CC, CC, CC, mags)
+        cc = CC + ([-7.0, -1.0, 0.5, 2.0, 9.0] if tier == "thorough" else [])
+        self.p = Product(CE, cc, cc, cc, cc, mags)
         # near-linear / threshold family: per-axis coefficient a0 - 3 a1 + 3 a2 - a3 around +-1e-8
         eps = [0.0, 0.4e-8, -0.4e-8, 0.99e-8, 1.01e-8, -0.99e-8, -1.01e-8, 3e-8, -3e-8, 1e-6, 1e-11]
         self.q = Product(eps, eps, [0.0, 1.0, -2.0], MAGS)
@@ -171,7 +173,14 @@ class Arcs(SubCheck):
 
     def __init__(self, svg, tier):
         self.svg = svg
-        self.p = Product(RATIO, ROT, TH0, EXT, [1, -1], MAGS)
+        rot, th0, ext = ROT, TH0, EXT
+        if tier == "thorough":
+            # every 15 degrees of rotation and of start angle, extents in steps of 20 degrees up to two turns plus the
+            # near-full-turn window in which an extremum is only reached by the last candidate of the wrap-around search
+            rot = [float(r) for r in range(0, 180, 15)] + [200.0, 317.0]
+            th0 = [float(t) for t in range(0, 360, 15)] + [340.0, 359.0]
+            ext = sorted(set(EXT + [math.radians(d) for d in list(range(20, 721, 20)) + [320, 340, 350, 355, 358, 359]]))
+        self.p = Product(RATIO, rot, th0, ext, [1, -1], MAGS)
 
     def size(self):
         return len(self.p)
